@@ -12,17 +12,18 @@ import "github.com/twmb/franz-go/pkg/kgo"
 // verifC37Record builds a record with 0..3 headers; keys are 0..2 symbolic bytes (so
 // duplicates and empty keys occur), values 0..2 symbolic bytes.
 func verifC37Record() (*kgo.Record, []kgo.RecordHeader) {
-	return verifC37RecordN(3, true)
+	return verifC37RecordN(3, true, true)
 }
 
-func verifC37RecordN(maxN int, spare bool) (*kgo.Record, []kgo.RecordHeader) {
+func verifC37RecordN(maxN int, spare, varyFirst bool) (*kgo.Record, []kgo.RecordHeader) {
 	n := verifChoose(maxN + 1)
 	hs := make([]kgo.RecordHeader, n)
 	for i := range hs {
 		hs[i].Key = verifNondetString("hkey", verifChoose(3))
-		// value lengths do not influence the carrier; quick fixes them at 1, 2, 0 (nil)
+		// value lengths do not influence the carrier: fixed at 1, 2, 0 (nil) by position;
+		// thorough varies the first header's value length 0..2
 		vl := (i + 1) % 3
-		if verifThorough() {
+		if i == 0 && varyFirst && verifThorough() {
 			vl = verifChoose(3)
 		}
 		if vl > 0 {
@@ -81,7 +82,7 @@ func verifC37RefGet(hs []kgo.RecordHeader, k string) (val []byte, found bool) {
 
 // Get and Keys on an arbitrary header list.
 func VerifC37_getKeys() {
-	r, snap := verifC37RecordN(3, false)
+	r, snap := verifC37RecordN(3, false, true)
 	c := NewRecordCarrier(r)
 	k := verifNondetString("k", verifChoose(3))
 	got := c.Get(k)
@@ -150,11 +151,7 @@ func VerifC37_set() {
 // Set/Set/Get sequences behave as a map: the last write to a key wins, other keys keep
 // their values; a fresh carrier over the same headers (the consumer side) reads the same.
 func VerifC37_setSetGet() {
-	maxN := 2
-	if verifThorough() {
-		maxN = 3
-	}
-	r, _ := verifC37RecordN(maxN, false)
+	r, _ := verifC37RecordN(2, false, false)
 	c := NewRecordCarrier(r)
 	k1 := verifNondetString("k1", verifChoose(3))
 	k2 := verifNondetString("k2", verifChoose(3))
